@@ -32,6 +32,26 @@ pub const MODES: [(Drive, bool, &str); 6] = [
     (Drive::CompileStep, true, "step+rec"),
 ];
 
+/// Late binding under redefinition: a word bound at its first call (possibly a call made while the source is still being
+/// compiled, from a meta block) must stay bound the same way in every drive mode, recording or not.
+fn late_stress(rng: &mut Rng) -> String {
+    let mut out: Vec<String> = vec!["late g".into(), ": h g ;".into(), format!(": g {} ;", rng.below(5))];
+    let n = 3 + rng.below(6);
+    for _ in 0..n {
+        out.push(match rng.below(8) {
+            0 => format!(": g {} ;", 5 + rng.below(5)),
+            1 => "h".into(),
+            2 => "#( h #)".into(),
+            3 => "#( h drop #)".into(),
+            4 => "g".into(),
+            5 => ": k h 1 + ; k".into(),
+            6 => format!("#( : g {} ; #)", 10 + rng.below(5)),
+            _ => "h h +".into(),
+        });
+    }
+    out.join(" ")
+}
+
 /// xv drive-record <trace> <side> <seed> <n> <budget>
 pub fn cmd_record(args: &[String]) -> i32 {
     let seed: u64 = args[2].parse().unwrap_or(1);
@@ -46,7 +66,7 @@ pub fn cmd_record(args: &[String]) -> i32 {
     let mut distinct = std::collections::HashSet::new();
     for i in 0..n {
         let b = 6 + g.rng.below(budget);
-        let src = g.program(b);
+        let src = if i % 12 == 7 { late_stress(&mut g.rng) } else { g.program(b) };
         let mut obs_all = vec![];
         for (drive, rec, name) in MODES.iter() {
             let r = run_source(&src, *drive, *rec, 20_000);
